@@ -101,6 +101,13 @@ type pool interface {
 	UpsertServer(*url.URL, ...roundrobin.ServerOption) error
 }
 
+type fmtLogger struct{}
+
+func (fmtLogger) Debug(f string, a ...interface{}) { _ = fmt.Sprintf(f, a...) }
+func (fmtLogger) Info(f string, a ...interface{})  { _ = fmt.Sprintf(f, a...) }
+func (fmtLogger) Warn(f string, a ...interface{})  { _ = fmt.Sprintf(f, a...) }
+func (fmtLogger) Error(f string, a ...interface{}) { _ = fmt.Sprintf(f, a...) }
+
 type world struct {
 	t       *rapid.T
 	p       pool
@@ -149,6 +156,11 @@ func (w *world) do(c *http.Cookie) (*url.URL, *http.Cookie, int) {
 	w.seen, w.served = nil, 0
 	rec := httptest.NewRecorder()
 	w.p.ServeHTTP(rec, req)
+	if w.seen != nil {
+		if m := w.members[key(w.seen)]; m != nil && w.seen.String() != m.String() {
+			w.fail("request forwarded to %s, which is not a URL of the pool: the member at that address is registered as %s", w.seen, m)
+		}
+	}
 	var issued *http.Cookie
 	for _, ck := range rec.Result().Cookies() {
 		if ck.Name == "sid" {
@@ -290,15 +302,26 @@ func TestC11_Sessions(t *testing.T) {
 		ss = ss.SetCookieValue(w.cd.cv)
 		w.cookieOpt, w.withOpt = opt, withOptions
 		useRB := rapid.Bool().Draw(t, "rebalancer")
+		verboseLB := rapid.IntRange(0, 2).Draw(t, "verboseBalancer") == 0 // debug mode with a formatting logger
 		if useRB {
-			rr, _ := roundrobin.New(handler)
-			rb, err := roundrobin.NewRebalancer(rr, roundrobin.RebalancerStickySession(ss))
+			var rrOpts []roundrobin.LBOption
+			rbOpts := []roundrobin.RebalancerOption{roundrobin.RebalancerStickySession(ss)}
+			if verboseLB {
+				rrOpts = append(rrOpts, roundrobin.Verbose(true), roundrobin.Logger(fmtLogger{}))
+				rbOpts = append(rbOpts, roundrobin.RebalancerDebug(true), roundrobin.RebalancerLogger(fmtLogger{}))
+			}
+			rr, _ := roundrobin.New(handler, rrOpts...)
+			rb, err := roundrobin.NewRebalancer(rr, rbOpts...)
 			if err != nil {
 				t.Fatalf("%v", err)
 			}
 			w.p, w.rr = rb, rr
 		} else {
-			rr, err := roundrobin.New(handler, roundrobin.EnableStickySession(ss))
+			lbOpts := []roundrobin.LBOption{roundrobin.EnableStickySession(ss)}
+			if verboseLB {
+				lbOpts = append(lbOpts, roundrobin.Verbose(true), roundrobin.Logger(fmtLogger{}))
+			}
+			rr, err := roundrobin.New(handler, lbOpts...)
 			if err != nil {
 				t.Fatalf("%v", err)
 			}
@@ -344,7 +367,24 @@ func TestC11_Sessions(t *testing.T) {
 		inPool := true
 		steps := rapid.IntRange(2, 14).Draw(t, "steps")
 		for i := 0; i < steps; i++ {
-			switch rapid.IntRange(0, 10).Draw(t, "op") {
+			switch rapid.IntRange(0, 11).Draw(t, "op") {
+			case 11: // S is taken out and registered again under the same address with other credentials / query
+				if !inPool || w.direct[key(S)] {
+					break
+				}
+				cur := w.members[key(S)]
+				nu := *cur
+				nu.User = rapid.SampledFrom([]*url.Userinfo{nil, url.User("svc"), url.UserPassword("svc", "new-secret")}).Draw(t, "newUser")
+				nu.RawQuery = rapid.SampledFrom([]string{"", "zone=b", cur.RawQuery}).Draw(t, "newQuery")
+				if err := w.remove(cur); err != nil {
+					w.fail("remove(%s): %v", cur, err)
+				}
+				if err := w.p.UpsertServer(&nu); err != nil {
+					w.fail("upsert(%s): %v", &nu, err)
+				}
+				w.members[key(S)] = &nu
+				w.logf("re-register(%s as %s)", cur, &nu)
+				poolChange = true
 			case 0, 1, 2: // follow-up with the session cookie
 				expired := w.cd.ttl > 0 && now > mint+w.cd.ttl+time.Second
 				fresh := w.cd.ttl == 0 || now < mint+w.cd.ttl-time.Second
@@ -401,6 +441,9 @@ func TestC11_Sessions(t *testing.T) {
 					w.members[key(u)] = u
 					w.logf("add(%s)", u)
 					poolChange = true
+					if key(u) == key(S) {
+						inPool = true // S's address is a member again (possibly under other credentials / query)
+					}
 				}
 			case 5: // remove another server
 				for k, u := range w.members {
@@ -453,7 +496,9 @@ func TestC11_Sessions(t *testing.T) {
 					w.logf("removeS(%s)", S)
 				} else if !inPool {
 					_ = w.p.UpsertServer(S)
-					w.members[key(S)] = S
+					if _, there := w.members[key(S)]; !there { // otherwise the address is registered already, under the URL it was added with
+						w.members[key(S)] = S
+					}
 					inPool = true
 					w.logf("readdS(%s)", S)
 				}
